@@ -6,7 +6,8 @@ use std::path::PathBuf;
 use std::sync::Arc;
 use surrealkv::verif::engine as fe;
 use surrealkv::{
-    CompressionType, Error, LSMIterator, Mode, Options, ReadOptions, Transaction, Tree, TreeBuilder,
+    CompressionType, Error, HistoryOptions, LSMIterator, Mode, Options, ReadOptions, Transaction, Tree, TreeBuilder,
+    WriteOptions,
 };
 
 type Cursor = Box<dyn LSMIterator + 'static>;
@@ -21,6 +22,7 @@ pub struct E2 {
     rt: tokio::runtime::Runtime,
     dir: tempfile::TempDir,
     opts: Option<Options>,
+    clock: Option<Arc<fe::ManualClock>>,
     tree: Option<Tree>,
     txs: BTreeMap<u32, Tx>,
     cur_owner: BTreeMap<u32, u32>,
@@ -43,6 +45,7 @@ pub fn err_name(e: &Error) -> String {
         Error::TransactionWriteConflict => "Conflict".into(),
         Error::TransactionRetry => "Retry".into(),
         Error::TransactionWithoutSavepoint => "NoSavepoint".into(),
+        Error::InvalidArgument(m) if m.contains("ersion") => "NoVersioning".into(),
         Error::InvalidArgument(m) => format!("InvalidArgument({})", m.replace(' ', "_")),
         other => format!("Other({})", other.to_string().replace(' ', "_")),
     }
@@ -110,7 +113,7 @@ fn parse_opts(path: PathBuf, s: &str) -> Options {
 impl E2 {
     pub fn new() -> Self {
         let rt = tokio::runtime::Builder::new_multi_thread().worker_threads(2).enable_all().build().unwrap();
-        E2 { rt, dir: tempfile::tempdir().unwrap(), opts: None, tree: None, txs: BTreeMap::new(), cur_owner: BTreeMap::new() }
+        E2 { rt, dir: tempfile::tempdir().unwrap(), opts: None, clock: None, tree: None, txs: BTreeMap::new(), cur_owner: BTreeMap::new() }
     }
     pub fn path(&self) -> PathBuf {
         self.dir.path().join("db")
@@ -196,7 +199,9 @@ impl E2 {
         match a {
             ["open", o] => {
                 let p = self.path();
-                self.opts = Some(parse_opts(p, o));
+                let mut opts = parse_opts(p, o);
+                self.clock = Some(fe::install_manual_clock(&mut opts));
+                self.opts = Some(opts);
                 self.open_tree()
             }
             ["close"] => self.close_tree(),
@@ -234,6 +239,69 @@ impl E2 {
             },
             ["setat", id, k, v, ts] => match self.txm(id) {
                 Some(t) => Self::unit(t.tx.set_at(hex_to_bytes(k), hex_to_bytes(v), ts.parse().unwrap())),
+                None => "err:NoTxn".into(),
+            },
+            ["clock", t] => {
+                self.clock.as_ref().unwrap().set(t.parse().unwrap());
+                "ok".into()
+            }
+            ["delat", id, k, ts] => match self.txm(id) {
+                Some(t) => Self::unit(t.tx.delete_with_options(hex_to_bytes(k), &WriteOptions::new().with_timestamp(Some(ts.parse().unwrap())))),
+                None => "err:NoTxn".into(),
+            },
+            ["sdelat", id, k, ts] => match self.txm(id) {
+                Some(t) => Self::unit(t.tx.soft_delete_with_options(hex_to_bytes(k), &WriteOptions::new().with_timestamp(Some(ts.parse().unwrap())))),
+                None => "err:NoTxn".into(),
+            },
+            ["getat", id, k, ts] => match self.tx(id) {
+                Some(t) => match t.tx.get_at(hex_to_bytes(k), ts.parse().unwrap()) {
+                    Ok(Some(v)) => format!("val:{}", bytes_to_hex(&v)),
+                    Ok(None) => "val:none".into(),
+                    Err(e) => format!("err:{}", err_name(&e)),
+                },
+                None => "err:NoTxn".into(),
+            },
+            ["history", id, lo, hi, tomb, tsr, limit, dir] => match self.tx(id) {
+                Some(t) => {
+                    let mut ho = HistoryOptions::new().with_tombstones(*tomb == "1");
+                    if *tsr != "~" {
+                        let (a, b) = tsr.split_once('-').unwrap();
+                        ho = ho.with_ts_range(a.parse().unwrap(), b.parse().unwrap());
+                    }
+                    if *limit != "~" {
+                        ho = ho.with_limit(limit.parse().unwrap());
+                    }
+                    match t.tx.history_with_options(hex_to_bytes(lo), hex_to_bytes(hi), &ho) {
+                        Err(e) => format!("err:{}", err_name(&e)),
+                        Ok(mut it) => {
+                            let back = *dir == "b";
+                            let mut out = Vec::new();
+                            let mut r = if back { it.seek_last() } else { it.seek_first() };
+                            loop {
+                                match r {
+                                    Err(e) => return format!("err:{}", err_name(&e)),
+                                    Ok(false) => break,
+                                    Ok(true) => {
+                                        let kr = it.key();
+                                        let k = kr.user_key().to_vec();
+                                        let ts = kr.timestamp();
+                                        let tombstone = kr.is_tombstone();
+                                        let v = if tombstone { Ok(vec![]) } else { it.value() };
+                                        match v {
+                                            Ok(v) => out.push(format!("{}@{}{}={}", bytes_to_hex(&k), ts, if tombstone { "!" } else { "" }, bytes_to_hex(&v))),
+                                            Err(e) => return format!("err:value:{}", err_name(&e)),
+                                        }
+                                        if out.len() > 100000 {
+                                            return "err:runaway".into();
+                                        }
+                                        r = if back { it.prev() } else { it.next() };
+                                    }
+                                }
+                            }
+                            format!("hist:{}", out.join(","))
+                        }
+                    }
+                }
                 None => "err:NoTxn".into(),
             },
             ["del", id, k] => match self.txm(id) {
